@@ -58,9 +58,21 @@ def crossratio(
     # positions of collections where a and b coincide (the cross ratio is 1 there, the formula below gives 0/0)
     equal = None
     if a.free_indices > 0 or b.free_indices > 0:
-        a_array, b_array = np.broadcast_arrays(a.array, b.array)
+        a_array, b_array, c_array, d_array = np.broadcast_arrays(a.array, b.array, c.array, d.array)
         axes = tuple(range(-(a.rank - a.free_indices), 0))
         equal = is_multiple(a_array, b_array, axis=axes, rtol=EQ_TOL_REL, atol=EQ_TOL_ABS)
+
+        if np.any(equal):
+            # the constructions below need a != b, at these positions c (or d, if c coincides with a) takes the place of b
+            use_d = is_multiple(a_array, c_array, axis=axes, rtol=EQ_TOL_REL, atol=EQ_TOL_ABS)
+            mask = np.expand_dims(equal, axes)
+            other = np.where(np.expand_dims(use_d, axes), d_array, c_array)
+            if isinstance(b, PointTensor):
+                b = PointCollection.from_array(np.where(mask, other, b_array))
+            elif isinstance(b, PlaneTensor):
+                b = PlaneCollection.from_array(np.where(mask, other, b_array))
+            else:
+                b = LineCollection.from_array(np.where(mask, other, b_array))
 
     if (
         isinstance(a, LineTensor)
@@ -113,15 +125,16 @@ def crossratio(
     if a.dim > 2 or (from_point is None and a.dim == 2):
         # four points are collinear if their coordinate vectors span a space of dimension 2 (in more than two
         # dimensions is_collinear only tests for a common hyperplane)
-        m = np.stack(np.broadcast_arrays(a.array, b.array, c.array, d.array), axis=-2)
+        a_array, b_array, c_array, d_array = np.broadcast_arrays(a.array, b.array, c.array, d.array)
+        m = np.stack([a_array, b_array, c_array, d_array], axis=-2)
         if not np.all(np.linalg.matrix_rank(m, tol=EQ_TOL_ABS) <= 2):
             raise NotCollinear("The points are not collinear: " + str([a, b, c, d]))
 
-        basis = np.stack([a.array, b.array], axis=-2)
-        a = matvec(basis, a.array)
-        b = matvec(basis, b.array)
-        c = matvec(basis, c.array)
-        d = matvec(basis, d.array)
+        basis = np.stack([a_array, b_array], axis=-2)
+        a = matvec(basis, a_array)
+        b = matvec(basis, b_array)
+        c = matvec(basis, c_array)
+        d = matvec(basis, d_array)
         o = []
 
     elif from_point is not None:
